@@ -32,6 +32,7 @@ type FlowGraph struct {
 	// pseudo-variables for the fields of local struct values (d.updated): see factObj
 	fieldVars map[string]*types.Var
 	escaping  map[types.Object]bool // see escapes
+	bdefs     map[types.Object]ast.Expr
 }
 
 // factObj: the variable a fact can be about: an identifier, or a field of a local struct value (d.updated
@@ -130,7 +131,8 @@ func (fg *FlowGraph) boolLinks() map[types.Object]boolLink {
 // closeFacts adds what follows from the flag links: flag known ⇒ nil-ness of x known, and the reverse.
 func (fg *FlowGraph) closeFacts(m map[identFact]bool) map[identFact]bool {
 	links := fg.boolLinks()
-	if len(links) == 0 || len(m) == 0 {
+	defs := fg.boolDefs()
+	if (len(links) == 0 && len(defs) == 0) || len(m) == 0 {
 		return m
 	}
 	var out map[identFact]bool
@@ -144,7 +146,39 @@ func (fg *FlowGraph) closeFacts(m map[identFact]bool) map[identFact]bool {
 				out[kk] = vv
 			}
 		}
+		if _, ok := out[k]; ok {
+			return
+		}
 		out[k] = v
+	}
+	// flag := A || B (assigned once, operands assigned at most once and not changed by closures): a known
+	// flag decides the parts that follow from it (false: both fail; for A && B, true: both hold)
+	for b, d := range defs {
+		v, ok := m[identFact{b, false}]
+		if !ok {
+			continue
+		}
+		var parts []Fact
+		var rec func(e ast.Expr, truth bool)
+		rec = func(e ast.Expr, truth bool) {
+			e = ast.Unparen(e)
+			if u, ok := e.(*ast.UnaryExpr); ok && u.Op == token.NOT {
+				rec(u.X, !truth)
+				return
+			}
+			if be, ok := e.(*ast.BinaryExpr); ok && (be.Op == token.LAND && truth || be.Op == token.LOR && !truth) {
+				rec(be.X, truth)
+				rec(be.Y, truth)
+				return
+			}
+			parts = append(parts, Fact{E: e, Neg: !truth})
+		}
+		rec(d, v)
+		for k, pv := range fg.identFacts(parts) {
+			if fg.assignCount(k.obj) <= 1 && !fg.escapes(k.obj) {
+				set(k, pv)
+			}
+		}
 	}
 	for b, l := range links {
 		if v, ok := m[identFact{b, false}]; ok {
@@ -1539,4 +1573,100 @@ func shortCircuitFacts(p *Program, n ast.Node) []Fact {
 	}
 	walk(top)
 	return out
+}
+
+// expandBoolLocals: a fact about a boolean local that is defined exactly once (unfiltered := len(a) == 0 &&
+// len(b) == 0) is a fact about its definition: the definition is decomposed like an edge condition (&& when it
+// holds, || when it fails) and the parts are added to the facts.
+func expandBoolLocals(info *types.Info, body ast.Node, facts []Fact) []Fact {
+	out := append([]Fact(nil), facts...)
+	for depth := 0; depth < 3; depth++ {
+		added := false
+		for _, f := range append([]Fact(nil), out...) {
+			if f.Tag != nil {
+				continue
+			}
+			id, ok := ast.Unparen(f.E).(*ast.Ident)
+			if !ok {
+				continue
+			}
+			def := valueOf(info, body, id)
+			if def == ast.Expr(id) {
+				continue
+			}
+			if b, ok := info.TypeOf(def).Underlying().(*types.Basic); !ok || b.Kind() != types.Bool && b.Kind() != types.UntypedBool {
+				continue
+			}
+			var rec func(e ast.Expr, truth bool)
+			rec = func(e ast.Expr, truth bool) {
+				e = ast.Unparen(e)
+				if u, ok := e.(*ast.UnaryExpr); ok && u.Op == token.NOT {
+					rec(u.X, !truth)
+					return
+				}
+				if be, ok := e.(*ast.BinaryExpr); ok && (be.Op == token.LAND && truth || be.Op == token.LOR && !truth) {
+					rec(be.X, truth)
+					rec(be.Y, truth)
+					return
+				}
+				nf := Fact{E: e, Neg: !truth}
+				for _, o := range out {
+					if o.E == nf.E && o.Neg == nf.Neg {
+						return
+					}
+				}
+				out = append(out, nf)
+				added = true
+			}
+			rec(def, !f.Neg)
+		}
+		if !added {
+			break
+		}
+	}
+	return out
+}
+
+// boolDefs: boolean locals assigned exactly once (and not by a closure) from a compound condition.
+func (fg *FlowGraph) boolDefs() map[types.Object]ast.Expr {
+	if fg.bdefs != nil {
+		return fg.bdefs
+	}
+	fg.bdefs = map[types.Object]ast.Expr{}
+	inspectNoLit(fg.Body, func(n ast.Node) bool {
+		as, ok := n.(*ast.AssignStmt)
+		if !ok || len(as.Lhs) != len(as.Rhs) {
+			return true
+		}
+		for i, l := range as.Lhs {
+			id, ok := ast.Unparen(l).(*ast.Ident)
+			if !ok {
+				continue
+			}
+			o := fg.Info.ObjectOf(id)
+			if o == nil {
+				continue
+			}
+			if b, ok := o.Type().Underlying().(*types.Basic); !ok || b.Kind() != types.Bool {
+				continue
+			}
+			switch x := ast.Unparen(as.Rhs[i]).(type) {
+			case *ast.BinaryExpr:
+				if x.Op != token.LAND && x.Op != token.LOR {
+					continue
+				}
+			case *ast.UnaryExpr:
+				if x.Op != token.NOT {
+					continue
+				}
+			default:
+				continue
+			}
+			if fg.assignCount(o) == 1 && !fg.escapes(o) {
+				fg.bdefs[o] = as.Rhs[i]
+			}
+		}
+		return true
+	})
+	return fg.bdefs
 }
